@@ -56,13 +56,16 @@ def _U(name):
 
 
 class Kind:
-    def __init__(self, kid, traits, makers, known=None, random_ok=True):
+    def __init__(self, kid, traits, makers, known=None, random_ok=True, io=None, motif=True):
+        self.io = io                  # "csv" | "excel": the value is attached with `new_pandas` (PandasData IOSpec)
+        self.motif = motif            # gets a `motif_desc` model of its own (the IO kinds share `io_family` models)
         self.id = kid
         self.traits = set(traits.split())
         if "any" in self.traits and "notext" not in self.traits:
             self.traits.add("text")       # str()/repr() of the value are deterministic
         self.makers = makers          # list of thunks; `alt` indexes it (mod length)
         self.known = known            # key of the known finding this kind triggers on the unchanged tree
+        self.known_alts = None        # None: every alternative triggers it; else the indices that do
         self.random_ok = random_ok and known is None
 
     def make(self, alt=0):
@@ -106,6 +109,53 @@ def _mod(name):
 
 
 _LONG = " ".join("word%d" % i for i in range(40))
+
+
+# ---- pandas objects of every small shape, attached with `new_pandas` (written to a csv / xlsx file inside the
+# exported package and read back by `_mx_sys.MiniPandasData`)
+
+def _pd():
+    import pandas
+    return pandas
+
+
+PD_SHAPES = {
+    # Series: length 0 / 1 / 2 / 3; int / float / str values; named and unnamed; default, labelled and named index
+    "s0": [lambda: _pd().Series([], dtype=float, name="e"),
+           lambda: _pd().Series([], dtype=object, index=_pd().Index([], name="k"))],
+    "s1": [lambda: _pd().Series([0.5], index=["A"], name="load"),
+           lambda: _pd().Series([7], name="one"),
+           lambda: _pd().Series(["x"], index=[3]),
+           lambda: _pd().Series([2.5], index=_pd().Index(["r"], name="key"))],
+    "s2": [lambda: _pd().Series([1, 2], index=["a", "b"], name="n"),
+           lambda: _pd().Series([1.5, -2.0]),
+           lambda: _pd().Series(["u", "v"], index=_pd().Index([10, 20], name="k"), name="sv")],
+    "s3": [lambda: _pd().Series([1.5, 2.5, 4.0], name="s"),
+           lambda: _pd().Series([3, 1, 2], index=["c", "a", "b"])],
+    # DataFrame: 0 / 1 / 2 rows x 1 / 2 columns
+    "f0": [lambda: _pd().DataFrame({"a": _pd().Series([], dtype=float)}),
+           lambda: _pd().DataFrame({"a": _pd().Series([], dtype=float), "b": _pd().Series([], dtype=float)})],
+    "f1": [lambda: _pd().DataFrame({"a": [1]}, index=["r"]),
+           lambda: _pd().DataFrame({"a": [0.5]}),
+           lambda: _pd().DataFrame({"a": [1], "b": [2.5]}, index=["r"]),
+           lambda: _pd().DataFrame({"a": ["x"], "b": [3]}, index=_pd().Index([5], name="key"))],
+    "f2": [lambda: _pd().DataFrame({"a": [1, 2]}),
+           lambda: _pd().DataFrame({"a": [1, 2], "b": ["x", "y"]}, index=_pd().Index(["p", "q"], name="key")),
+           lambda: _pd().DataFrame({"a": [1.5, 2.5], "b": [0.25, -1.0]}, index=[10, 20])],
+    # two index levels (read back with index_col=[0, 1])
+    "fm": [lambda: _pd().DataFrame({"a": [1, 2], "b": [0.5, 1.5]},
+                                   index=_pd().MultiIndex.from_tuples([("x", 1), ("y", 2)], names=["u", "w"])),
+           lambda: _pd().Series([1.5, 2.5], name="ms",
+                                index=_pd().MultiIndex.from_tuples([("x", 1), ("y", 2)], names=["u", "w"]))],
+}
+
+
+def _pd_kinds():
+    res = []
+    for ft in ("csv", "excel"):
+        for shape, makers in PD_SHAPES.items():
+            res.append(Kind("pdio_%s_%s" % (ft, shape), "any notext pdobj", makers, io=ft, motif=False))
+    return res
 
 KINDS = [
     # ---- exactly the literal types, at their boundaries
@@ -170,7 +220,7 @@ KINDS = [
                                  if usertypes() else None]),
     Kind("function", "any callable notext", [lambda: _U("twice"), lambda: _mod("math").floor]),
     Kind("class", "any class", [lambda: _U("Percent"), lambda: int]),
-]
+] + _pd_kinds()
 BY_ID = {k.id: k for k in KINDS}
 
 
@@ -236,6 +286,22 @@ _READERS = [
     ("get", "dict", "lambda: (N['k'], N[1], N.get('zz'))"),
     ("isn", "none", "lambda: (N is None, N or 5, N == 0)"),
     ("ssum", "series", "lambda: (float(N.sum()), float(N.iloc[0]), len(N), str(N.dtype))"),
+    # pandas objects: what exposes TYPE and SHAPE (a Series is not a scalar, a frame is not a Series)
+    ("pshape", "pdobj", "lambda: (type(N).__name__, N.shape, len(N), N.ndim, int(N.size))"),
+    ("pidx", "pdobj", "lambda: (N.index.tolist(), list(N.index.names), N.index.nlevels)"),
+    ("pvals", "pdobj", "lambda: N.values.tolist()"),
+    ("pdty", "pdobj", "lambda: [str(t) for t in ([N.dtype] if N.ndim == 1 else N.dtypes)] if len(N) else 'empty'"),
+    ("pname", "pdobj", "lambda: (N.name, len(N.index)) if N.ndim == 1 else ([str(c) for c in N.columns], N.columns.name)"),
+    ("pel", "pdobj", "lambda x: (N.iloc[x % len(N)].tolist() if N.ndim == 2 else N.tolist()[x % len(N)]) if len(N) else -1"),
+    ("ploc", "pdobj", "lambda: [type(N.loc[k]).__name__ for k in N.index]"),
+    ("pitems", "pdobj", "lambda: [(str(k), type(v).__name__) for k, v in N.items()]"),
+    ("paln", "pdobj", "lambda: (N + N.iloc[::-1]).values.tolist() if len(N) and all(str(t)[0] in 'if' for t in "
+                      "([N.dtype] if N.ndim == 1 else N.dtypes)) else len(N)"),
+    ("psum", "pdobj", "lambda: (N.sum().tolist() if N.ndim == 2 else N.sum().item()) if len(N) and all(str(t)[0] in 'if' "
+                      "for t in ([N.dtype] if N.ndim == 1 else N.dtypes)) else 0"),
+    ("pmul", "pdobj", "lambda x: type(N * x).__name__ if len(N) and all(str(t)[0] in 'if' for t in "
+                      "([N.dtype] if N.ndim == 1 else N.dtypes)) else type(N).__name__"),
+    ("pT", "pdobj", "lambda: (N.T.shape, type(N.T).__name__)"),
     ("call", "callable", "lambda x: (N(x + 0.5), N.__name__)"),
     ("cname", "class", "lambda: (N.__name__, N.__module__)"),
     ("sqrt", "module", "lambda x: (N.sqrt(x * 4.0), N.__name__, N.floor(2.5))"),
@@ -379,20 +445,87 @@ def io_desc(file_type, name="K"):
     }
 
 
-def motif_family():
+IO_QUICK_READERS = ("pshape", "pidx", "pvals", "pname", "pel", "ploc", "paln")
+
+
+def io_family(rotation=None):
+    """`rotation`: None - every alternative of every shape, every reader, one model per file type (thorough tier);
+    n - one alternative per shape (the n-th, modulo), the readers IO_QUICK_READERS, both file types in ONE model.
+    -> [(label, desc)]: PandasData references of every small shape (PD_SHAPES x alternatives x csv / excel) at model
+    level, in a space, overridden in a derived space, copied into an ItemSpace and read in a static child of it -
+    each read by the patterns that expose type and shape."""
+    def big_space(name, ft):
+        refs, cells = [], []
+        for k in [k for k in KINDS if k.io == ft]:
+            shape = k.id.rsplit("_", 1)[1]
+            for alt in range(len(k.makers)):
+                if k.known and alt in (k.known_alts or ()):
+                    continue
+                if rotation is not None and alt != rotation % len(k.makers):
+                    continue
+                nm = "r_%s_%d" % (shape, alt)
+                refs.append({"name": nm, "val": {"kind": k.id, "alt": alt}, "mode": "auto"})
+                for i, (sfx, src) in enumerate(readers(k, nm)):
+                    if sfx in ("id", "ty", "mro", "isi", "exact", "box", "same"):
+                        continue
+                    if rotation is not None and sfx not in IO_QUICK_READERS:
+                        continue
+                    cells.append(_cells("rd_%s_%s" % (nm, sfx), src, cached=(i + alt) % 3 != 2))
+        return {"name": name, "bases": [], "formula": None, "refs": refs, "cells": cells, "spaces": []}
+
+    def small_part(ft, other):
+        s1 = BY_ID["pdio_%s_s1" % ft]
+        f1 = BY_ID["pdio_%s_f1" % ft]
+        s2 = BY_ID["pdio_%s_s2" % other]
+        small_refs = [{"name": "v", "val": {"kind": s1.id, "alt": 0}, "mode": "auto"},
+                      {"name": "w", "val": {"kind": f1.id, "alt": 2}, "mode": "auto"}]
+        small_cells = [_cells("rd_%s_%s" % (nm, sfx), src) for nm, k in (("v", s1), ("w", f1), ("gs", s1))
+                       for sfx, src in readers(k, nm) if sfx in ("pshape", "pidx", "pvals", "ploc", "paln")]
+        return [
+            {"name": "S", "bases": [], "formula": None, "refs": small_refs, "cells": small_cells, "spaces": []},
+            {"name": "B", "bases": ["S"], "formula": None,
+             "refs": [{"name": "v", "val": {"kind": s2.id, "alt": 0}, "mode": "auto"}], "cells": [], "spaces": []},
+            {"name": "P", "bases": ["S"], "formula": [["x", None]], "refs": [],
+             "cells": [_cells("withx", "lambda: (type(v).__name__, v.shape, len(v), x, type(gs).__name__, gs.shape)")],
+             "spaces": [{"name": "In", "bases": [], "formula": None, "refs": [],
+                         "cells": [_cells("deep", "lambda: (type(gs).__name__, gs.shape, gs.index.tolist(), x)")],
+                         "spaces": []}]}]
+    fts = ("csv", "excel")
+    if rotation is not None:
+        ft, other = fts[rotation % 2], fts[(rotation + 1) % 2]
+        desc = {"name": "IO", "profile": "valueio:family",
+                "grefs": [{"name": "gs", "val": {"kind": "pdio_%s_s1" % other, "alt": 1}, "mode": "auto"}],
+                "spaces": [big_space("A_csv", "csv"), big_space("A_xl", "excel")] + small_part(ft, other)}
+        return [("iofamily", desc)]
+    res = []
+    for ft, other in (fts, fts[::-1]):
+        desc = {"name": "IO", "profile": "valueio:family:" + ft,
+                "grefs": [{"name": "gs", "val": {"kind": "pdio_%s_s1" % ft, "alt": 1}, "mode": "auto"}],
+                "spaces": [big_space("A", ft)] + small_part(ft, other)}
+        res.append(("iofamily:" + ft, desc))
+    return res
+
+
+def motif_family(io_rotation=None):
     """-> [(label, desc)] enumerated first on every run: one model per kind, then pairs of kinds
     across the literal / non-literal boundary"""
     res = []
     for k in KINDS:
-        res.append(("kind:" + k.id, motif_desc(k)))
+        if k.motif:
+            res.append(("kind:" + k.id, motif_desc(k)))
     pairs = [("bool", "int"), ("int", "sub_int"), ("float", "sub_float"), ("str", "sub_str"), ("int", "intenum"),
              ("float", "np_float64"), ("str", "np_str"), ("int", "np_int64"), ("none", "bool"),
              ("sub_int_repr", "intenum_std"), ("list_mixed", "dict_mixed"), ("np_array", "float_edge"),
              ("strenum", "str_quotes"), ("floatenum", "sub_int_state")]
-    for a, b in pairs:
+    for i, (a, b) in enumerate(pairs):
+        if io_rotation is not None and (i + io_rotation) % 2:
+            continue            # quick tier: every pair every second seed
         res.append(("pair:%s+%s" % (a, b), pair_desc(BY_ID[a], BY_ID[b])))
     for ft in ("csv", "excel"):
+        if io_rotation is not None and ft != ("csv", "excel")[io_rotation % 2]:
+            continue            # (the IO family below holds both file types on every run)
         res.append(("io:" + ft, io_desc(ft)))
+    res.extend(io_family(io_rotation))
     return res
 
 
